@@ -146,7 +146,16 @@ public:
         }
 
         // Solver object
-        m_eigs = new SymEigsSolver<SVDMatOp<Scalar>>(*m_op, ncomp, ncv);
+        // If the arguments are rejected, release the operator created above before passing the exception on
+        try
+        {
+            m_eigs = new SymEigsSolver<SVDMatOp<Scalar>>(*m_op, ncomp, ncv);
+        }
+        catch (...)
+        {
+            delete m_op;
+            throw;
+        }
     }
 
     // Destructor
